@@ -50,3 +50,6 @@ func VerifFramePoisonIntact(f *Frame) (bool, string) {
 	}
 	return true, ""
 }
+
+// VerifFrameMsgType returns the message type byte of a frame's header (unexported field).
+func VerifFrameMsgType(f *Frame) byte { return byte(f.Header.messageType) }
